@@ -244,6 +244,12 @@ def run_c11(prop, tier, seed, workdir):
     sc = dict(SCOPES[tier])
     sc["Fns"] = {"x"}
     cases, r = gen(workdir, sc)
+    # two directives in one format ("<dir> %d" and "%d|<dir>"): nothing of one directive (flags, width, precision, length) may carry
+    # over into the next.  A reduced directive scope, every flag / width / precision / length combination of it.
+    sc2 = dict(MINI if tier == "quick" else SCOPES["quick"])
+    sc2.update(Shapes={4, 10}, Fns={"x"})
+    cases2, r2 = gen(workdir, sc2, name="genprintf2")
+    cases = cases + cases2
     fns = NARROW_BUF + NARROW_STREAM
     jobs = []
     for c in cases:
@@ -262,7 +268,7 @@ def run_c11(prop, tier, seed, workdir):
         states=r["distinct"], transitions=r["states"], traces_validated_against_impl=n1 + n2, evaluations=n1 + n2,
         distinct_nontrivial=len(nontriv),
         rule="TLC enumerates formats from the directive grammar (conversions %s, flag sets, widths, precisions incl. '*', length modifiers, "
-             "shapes with literal text) with arguments from the value tables (boundary integers as 16-bit limbs, strings incl. multibyte, "
+             "shapes with literal text, and - over a reduced directive scope - two directives in one format: \"<dir> %%d\" and \"%%d|<dir>\") with arguments from the value tables (boundary integers as 16-bit limbs, strings incl. multibyte, "
              "wide strings, doubles incl. +-0, denormal, 1e9 boundary, 1e300, inf, nan) and dmax = needed-1, needed, needed+2 computed from the "
              "contract's own rendering, and checks the grammar-level invariants (ParserRecovers, NConvIffBuilt, ArgsConsumed); every case is "
              "executed through sprintf_s and one of the other 7 narrow entry points (buffers in guarded memory, streams via tmpfile/redirected "
